@@ -279,6 +279,9 @@ func (p *Prog) SSAFunc(fi *FuncInfo) *ssa.Function {
 // interface method) or nil for dynamic calls / builtins / conversions.
 func callee(info *types.Info, call *ast.CallExpr) *types.Func {
 	f, _ := typeutil.Callee(info, call).(*types.Func)
+	if c, ok := funcCanon[f]; ok {
+		return c
+	}
 	return f
 }
 
